@@ -207,13 +207,14 @@ class AceGroup(AceBase, Group):
 
         :param platform: Platform: "asa", "ios", "nxos". Default "ios".
         """
-        self._platform = h.init_platform(platform=platform)
+        platform = h.init_platform(platform=platform)
 
-        for item in self._items:
+        for idx, item in enumerate(self._items):
             item.type = self._type
-            if self._platform == "nxos":
-                self.ungroup_ports()
-            item.platform = self._platform
+            if platform == "nxos" and idx == 0:
+                self.ungroup_ports()  # once, while the items still have their own platform
+            item.platform = platform
+        self._platform = platform
 
         data = self.data(uuid=True)
         self.__init__(**data)  # type: ignore
